@@ -1,6 +1,7 @@
 package chainprops
 
 import (
+	testkeeper "github.com/lavanet/lava/v5/testutil/keeper"
 	"testing"
 
 	sdk "github.com/cosmos/cosmos-sdk/types"
@@ -16,7 +17,7 @@ import (
 // credit without a matching debit) shows up as an increase of the sum over all balances.
 func TestC09(t *testing.T) {
 	c := ev.For("C09")
-	c.SetRule("rapid state machine over the full action alphabet on a generated world, block time progressing over months; oracle: the sum of all bank balances of the bond denom after every transaction and after every block is <= the value before; one case in four is a directed scenario with drawn parameters (delegators bond almost all of their balance, relay payments, month boundary, monthly payout, reward claims by accounts whose liquid balance is below the reward); non-trivial = history crossed >=1 month boundary with >=1 accepted relay payment (so payouts, refills and bonus rewards ran), for the scenario: a delegator with (almost) no liquid balance was paid a claimed reward; distinct = distinct histories")
+	c.SetRule("rapid state machine over the full action alphabet on a generated world, block time progressing over months; oracle: the sum of all bank balances of the bond denom after every transaction and after every block is <= the value before, and the mock bank's mint counter for the bond denom (hook H8) does not move (a mint hidden by a larger burn in the same block is still seen); one random case in three starts from a directed IPRPC preamble (every consumer eligible, every spec funded mostly for one month, relay payments on every spec, month ends); one case in four is a directed scenario with drawn parameters (delegators bond almost all of their balance, relay payments, month boundary, monthly payout, reward claims by accounts whose liquid balance is below the reward); non-trivial = history crossed >=1 month boundary with >=1 accepted relay payment (so payouts, refills and bonus rewards ran), for the scenario: a delegator with (almost) no liquid balance was paid a claimed reward; distinct = distinct histories")
 	c.Assume("supply = sum over the mock bank's balance map (hook H7); accounts are funded during world setup only, before the baseline is taken",
 		"transactions run atomically (cache context + bank snapshot)")
 	rapid.Check(t, func(rt *rapid.T) {
@@ -28,7 +29,15 @@ func TestC09(t *testing.T) {
 		denom := w.C.Denom()
 		last := w.C.Supply(denom)
 		decreases, poor := 0, 0
+		minted := testkeeper.VerifMinted().AmountOf(denom)
 		check := func(where string) {
+			// a mint hidden by a larger burn in the same step (monthly refills burn): nothing in lava mints
+			// the bond denomination, so the mock bank's mint counter (hook H8) may not move at all
+			c.Clause("nothing-minted")
+			if m := testkeeper.VerifMinted().AmountOf(denom); !m.Equal(minted) {
+				rt.Fatalf("%s", ev.Violation("C09", "%s of %s were minted %s (the total supply moved from %s to %s in the same step)\nhistory (tail):\n  %s",
+					m.Sub(minted), denom, where, last, w.C.Supply(denom), histString(w, 40)))
+			}
 			c.Clause("supply-not-increased")
 			now := w.C.Supply(denom)
 			if now.GT(last) {
@@ -42,6 +51,12 @@ func TestC09(t *testing.T) {
 		}
 		w.C.BlockHook = func() {
 			check("across a block boundary (EndBlock+BeginBlock) reaching height " + sdk.NewInt(int64(w.C.Height())).String())
+		}
+		// directed preamble, 1 case in 3 (see iprpcMonth): several funded and served specs in one IPRPC month
+		iprpc := rapid.IntRange(0, 2).Draw(rt, "iprpcMonthPreamble") == 0
+		if iprpc {
+			iprpcMonth(rt, w)
+			check("after the IPRPC month preamble")
 		}
 		acts := fullAlphabet(w, chain.RelayOpts{SessionPool: 0, PastEpochs: true, Qos: true, QosExcellence: true, Unresponsive: true})
 		// accounts that keep (almost) no liquid balance: a delegator bonds nearly everything it has,
@@ -106,7 +121,13 @@ func propC09Scenario(rt *rapid.T, t *testing.T) {
 	w := chain.NewWorld(rt, t, chain.Cfg{Specs: [2]int{1, 1}, Plans: [2]int{1, 1}, Providers: [2]int{2, 3}, Consumers: [2]int{1, 2}, Delegators: [2]int{1, 3}, Contrib: true})
 	denom := w.C.Denom()
 	last := w.C.Supply(denom)
+	minted := testkeeper.VerifMinted().AmountOf(denom)
 	check := func(where string) {
+		c.Clause("nothing-minted")
+		if m := testkeeper.VerifMinted().AmountOf(denom); !m.Equal(minted) {
+			rt.Fatalf("%s", ev.Violation("C09", "%s of %s were minted %s (the total supply moved from %s to %s in the same step)\nhistory (tail):\n  %s",
+				m.Sub(minted), denom, where, last, w.C.Supply(denom), histString(w, 40)))
+		}
 		c.Clause("supply-not-increased")
 		now := w.C.Supply(denom)
 		if now.GT(last) {
